@@ -12,24 +12,24 @@ import (
 )
 
 type FuncResult struct {
-	Key        string
-	Contract   *Contract
-	Obls       []*Obligation
-	Prelude    string // SMT text shared by every obligation of this function
-	Err        string // engine failure
-	Trusted    []string
-	Unmodelled []string
-	Assumes    []string
-	Inlined    []string
-	Notes      []string
-	Blocks     int
-	Instrs     int
-	Replay     *ReplayInfo
-	MapKey     string
-	gen        *Gen
+	Key           string
+	Contract      *Contract
+	Obls          []*Obligation
+	Prelude       string // SMT text shared by every obligation of this function
+	Err           string // engine failure
+	Trusted       []string
+	Unmodelled    []string
+	Assumes       []string
+	Inlined       []string
+	Notes         []string
+	Blocks        int
+	Instrs        int
+	Replay        *ReplayInfo
+	MapKey        string
+	gen           *Gen
 	StaticPrelude string
-	StrLits    map[string]string
-	Body       []string
+	StrLits       map[string]string
+	Body          []string
 }
 
 func (w *Workspace) newGen(fn *ssa.Function, ct *Contract) *Gen {
